@@ -60,6 +60,11 @@ pub struct Plan {
     /// the healthy streams have been checked (datagrams pile up unread meanwhile)
     #[serde(default)]
     pub lazy_datagrams: bool,
+    /// after the healthy streams have been checked the stalls are simply left in place for this
+    /// long (ms), then one more healthy stream of each kind is opened and must be delivered: a
+    /// stall may last as long as the peer likes
+    #[serde(default)]
+    pub late_hold_ms: u64,
 }
 
 pub fn gen_plan(seed: u64, index: usize, _tier: Tier) -> Plan {
@@ -156,6 +161,7 @@ pub fn gen_plan(seed: u64, index: usize, _tier: Tier) -> Plan {
         final_datagrams: rng.usize(1, 3),
         close_code: rng.next_u64() as u32,
         lazy_datagrams,
+        late_hold_ms: if rng.chance_pm(300) { *rng.pick(&[6_000u64, 12_000, 20_000]) } else { 0 },
     }
 }
 
@@ -517,6 +523,39 @@ pub fn execute(plan: &Plan, trace: bool) -> Exec {
                 problems.push(("C07/healthy-read-error".into(), e.clone()));
             }
         }
+        // the stalls stay; much later the connection must still take new streams
+        let mut late_keep: Vec<Box<dyn std::any::Any + Send>> = Vec::new();
+        if plan.late_hold_ms > 0 {
+            tokio::time::sleep(Duration::from_millis(plan.late_hold_ms)).await;
+            let mut p2 = (*plan).clone();
+            p2.ops = vec![
+                Op::Healthy { bidi: false, len: 100, key: plan.seed ^ 0x1a7e, finish: true },
+                Op::Healthy { bidi: true, len: 100, key: plan.seed ^ 0x1a7f, finish: true },
+            ];
+            let o2 = drive_raw(&p2, &net, &conn_raw, session_id, &app).await?;
+            let deadline = tokio::time::Instant::now() + Duration::from_secs(30);
+            loop {
+                let done = {
+                    let st = app.lock().unwrap();
+                    o2.healthy.iter().all(|(id, ..)| st.got_streams.contains_key(id))
+                };
+                if done || tokio::time::Instant::now() >= deadline {
+                    break;
+                }
+                tokio::time::sleep(Duration::from_millis(20)).await;
+            }
+            let st = app.lock().unwrap();
+            for (id, bidi, payload, desc) in &o2.healthy {
+                if st.got_streams.get(id) != Some(payload) {
+                    problems.push((
+                        format!("C07/healthy-{}-not-delivered", if *bidi { "bidi" } else { "uni" }),
+                        format!("healthy stream {desc} opened {} ms after the stalls began was not delivered intact within 30 s; stalled: {:?}", plan.late_hold_ms, o.stalled_desc),
+                    ));
+                }
+            }
+            late_keep = o2.keep;
+        }
+        let _ = &late_keep;
         // datagrams sent now (network quiet, no loss) must all arrive
         app.lock().unwrap().datagrams_wanted = true;
         net.quiesce(Duration::from_millis(50), Duration::from_secs(2)).await;
@@ -596,6 +635,7 @@ pub fn execute(plan: &Plan, trace: bool) -> Exec {
             ex.probe("healthy_streams", nh as u64);
             ex.fault("peer_stream_stalled", ns as u64);
             ex.fault("datagrams_left_unread_runs", plan.lazy_datagrams as u64);
+            ex.fault("stalls_held_for_seconds", plan.late_hold_ms / 1000);
             ex.nontrivial = nh > 0 && ns > 0;
             if let Some((c, d)) = problems.into_iter().next() {
                 ex.violation(&c, d);
@@ -636,7 +676,7 @@ pub fn def() -> PropertyDef {
     PropertyDef {
         id: "C07",
         scenarios: vec![Box::new(Typed(C07Raw))],
-        rule: "Each run: a scripted raw QUIC peer (client role against the real server on even indexes, server role against the real client on odd ones) opens 1-40 stalled streams (uni/bidi; no byte, first byte of the 2-byte type, type without session id, first byte of a 2/4/8-byte session id, complete preamble then silence, complete preamble plus unread data; against the server also further complete or half-written CONNECT requests left open) interleaved in generated order with 1-5 healthy WebTransport streams (tagged payloads 0..5000 B), datagrams, quiescence points and sleeps; then datagrams on a quiet network and a close capsule. The application keeps accepting streams; one run in twelve builds the endpoint with the library's default transport configuration and leaves a whole default stream window (1.25 MB) unread in one accepted stream; in a quarter of the runs it calls receive_datagram only after the healthy streams have been checked, so 2-5 datagrams sit unread meanwhile. Oracle (bounded liveness, no faults): every healthy stream accepted and read byte-exact within 30 s simulated, every late datagram received, all three pending calls report ApplicationClosed with the capsule's code within 30 s. Non-trivial = at least one stalled and one healthy stream in the run; distinct = distinct plan hashes.",
+        rule: "Each run: a scripted raw QUIC peer (client role against the real server on even indexes, server role against the real client on odd ones) opens 1-40 stalled streams (uni/bidi; no byte, first byte of the 2-byte type, type without session id, first byte of a 2/4/8-byte session id, complete preamble then silence, complete preamble plus unread data; against the server also further complete or half-written CONNECT requests left open) interleaved in generated order with 1-5 healthy WebTransport streams (tagged payloads 0..5000 B), datagrams, quiescence points and sleeps; then datagrams on a quiet network and a close capsule. The application keeps accepting streams; in 30% of the runs the stalls are then held for another 6-20 s before one more healthy stream of each kind is opened; one run in twelve builds the endpoint with the library's default transport configuration and leaves a whole default stream window (1.25 MB) unread in one accepted stream; in a quarter of the runs it calls receive_datagram only after the healthy streams have been checked, so 2-5 datagrams sit unread meanwhile. Oracle (bounded liveness, no faults): every healthy stream accepted and read byte-exact within 30 s simulated, every late datagram received, all three pending calls report ApplicationClosed with the capsule's code within 30 s. Non-trivial = at least one stalled and one healthy stream in the run; distinct = distinct plan hashes.",
         assumptions: vec![
             "bounded liveness is judged on a fault-free simulated network after the script has finished",
             "the raw peer and reference codec are harness code (validated against RFC worked examples at start-up)",
